@@ -40,8 +40,8 @@ pub fn alias_normalise(b: &[u8]) -> Vec<u8> {
     out
 }
 
-const MUTS: [&str; 17] = [
-    "dup_elided_twin", "swap", "dup", "drop", "arity1", "insert_leaf", "insert_kv", "retag", "retype", "extend", "bytes31", "bytes33", "map0", "map2", "untag", "wrap_tag", "nest",
+const MUTS: [&str; 19] = [
+    "dup_elided_twin", "swap", "dup", "drop", "arity1", "insert_leaf", "insert_kv", "retag", "retype", "extend", "bytes31", "bytes33", "map0", "map2", "untag", "wrap_tag", "nest", "slot_node", "aad",
 ];
 
 fn junk(rng: &mut Rng) -> Item {
@@ -166,6 +166,33 @@ fn mutate(item: &Item, counter: &mut usize, target: usize, kind: &str, rng: &mut
                 v.push((Item::Tag(201, Box::new(Item::Text("extra-p".into()))), Item::Tag(201, Box::new(Item::Text("extra-o".into())))));
                 *applied = true;
                 return Item::Map(v);
+            }
+            ("slot_node", Item::Array(xs)) if xs.len() >= 2 => {
+                // an assertion slot holding a well-formed NODE whose subject is not an assertion (a leaf or a
+                // known value with the old assertion as its own assertion)
+                let i = 1 + rng.below(xs.len() - 1);
+                let mut v = xs.clone();
+                let subject = if rng.chance(1, 2) { Item::Tag(201, Box::new(Item::Text("x".into()))) } else { Item::UInt(rng.below(20) as u64) };
+                let inner_assertion = if matches!(v[i], Item::Map(_)) { v[i].clone() } else { Item::Map(vec![(Item::UInt(1), Item::UInt(2))]) };
+                v[i] = Item::Array(vec![subject, inner_assertion]);
+                *applied = true;
+                return Item::Array(v);
+            }
+            ("aad", Item::Tag(40002, x)) => {
+                // an encrypted element whose additional data is present but is not a tagged digest
+                if let Item::Array(parts) = &**x {
+                    if parts.len() == 4 {
+                        let mut v = parts.clone();
+                        v[3] = match rng.below(4) {
+                            0 => Item::Bytes(rng.bytes(32)),
+                            1 => Item::Bytes(encode(&Item::Bytes(rng.bytes(32)))),
+                            2 => Item::Bytes(encode(&Item::Tag(40001, Box::new(Item::Bytes(rng.bytes(31)))))),
+                            _ => Item::Bytes(encode(&Item::Text("application data".into()))),
+                        };
+                        *applied = true;
+                        return Item::Tag(40002, Box::new(Item::Array(v)));
+                    }
+                }
             }
             ("nest", x) => {
                 *applied = true;
@@ -414,6 +441,26 @@ pub fn run(ctx: &mut Ctx) {
                             b.extend_from_slice(&form);
                             judge(ctx, &b, "quirk:float-spelled-integer");
                         }
+                    }
+                }
+            }
+        }
+        if case % 400 == 200 {
+            // the same non-canonical spellings inside LARGE inputs (beyond 64 KiB / 1 MiB)
+            let size = *rng.pick(&[65_500usize, 65_536, 70_000, 1_100_000]);
+            let payload = Item::Tag(201, Box::new(Item::Bytes(rng.bytes(size))));
+            let numbers = [Item::UInt((1u64 << 63) + 2048), Item::UInt(1u64 << 63), Item::UInt(u64::MAX - 2047), Item::UInt(1u64 << 40), Item::NInt((1u64 << 40) - 1), Item::NInt((1u64 << 32) - 1), Item::UInt(7)];
+            let num = rng.pick(&numbers).clone();
+            let big = Item::Tag(200, Box::new(Item::Array(vec![payload, Item::Map(vec![(Item::Tag(201, Box::new(Item::UInt(1))), Item::Tag(201, Box::new(num)))])])));
+            let valid_big = encode(&big);
+            judge(ctx, &valid_big, "valid:large");
+            let n = count_nodes(&big);
+            for q in ALL_QUIRKS {
+                for target in 0..n {
+                    let (b, applied) = encode_quirk(&big, target, q);
+                    if applied && b != valid_big {
+                        ctx.count("large_inputs_with_quirk");
+                        judge(ctx, &b, &format!("quirk:large:{:?}", q));
                     }
                 }
             }
